@@ -648,3 +648,19 @@ Proof.
   repeat split; try assumption. rewrite I2. unfold x.
   pose proof (prefix_always cap evs s) as Q. unfold captured in Q. now rewrite Q.
 Qed.
+
+Lemma frozen_after_verdict : forall cap evs1 evs2 s,
+  captured s (srun cap (evs1 ++ EStop :: evs2) sst0) = captured s (srun cap evs1 sst0).
+Proof. intros cap evs1 evs2 s. rewrite frozen_after_stop. apply stop_keeps. Qed.
+
+Lemma combined_order : forall cap evs,
+  let x := c_side (crun cap evs cst0) in
+  let tg := tagged true true evs in
+  map snd tg = r_acc (sd_rd x) ++ sd_buf x /\
+  (r_done (sd_rd x) = true -> sd_err x = false -> r_acc (sd_rd x) = map snd tg) /\
+  (forall s, only s tg = written s evs).
+Proof.
+  intros cap evs. cbn zeta. split; [apply combined_prefix|]. split.
+  - apply combined_complete.
+  - intros s. apply combined_interleaving.
+Qed.
